@@ -11,6 +11,8 @@ fail, to show the invariants are not vacuous); (B) seeded random closed-loop sce
 the REAL kopf.operator() in the world simulator, every trace judged by TLC against Trace_Handling.tla (all invariants
 of the module are evaluated on every state of the explaining behaviour, and time is bound by urgency).
 """
+from typing import Any
+
 from vf.props import _family
 
 PROFILES = "errors".split(',')
@@ -91,6 +93,79 @@ def execution_records(quick: bool, seed: int):
     return recs
 
 
+def activity_records(quick: bool, seed: int):
+    """Whole activities through the REAL activities.run_activity: two or three handlers whose functions follow scripts (what they do at
+    their 1st, 2nd, ... attempt) and so end in different rounds; attempt instants, final verdicts and the activity's own verdict."""
+    import itertools
+    import logging
+    import random
+    import kopf
+    from kopf._cogs.structs import ephemera
+    from kopf._core.actions import lifecycles
+    from kopf._core.engines import activities, indexing
+    from kopf._core.intents import causes
+    from sim.opsim import Sim
+    rnd = random.Random(f'act-{seed}')
+    U = -1
+    T = lambda d: dict(kind='temp', delay=d)
+    OK, PERM, EXC = dict(kind='ok', delay=U), dict(kind='perm', delay=U), dict(kind='exc', delay=U)
+    scripts = [[OK], [PERM], [T(1), OK], [T(2), T(1), OK], [T(1), PERM], [EXC, OK], [EXC, EXC, OK], [T(3), T(3), T(3), OK], [T(0), OK], [EXC, PERM]]
+    confs = [dict(timeout=U, retries=U, backoff=2, mode=''), dict(timeout=U, retries=2, backoff=1, mode=''), dict(timeout=4, retries=U, backoff=2, mode=''),
+             dict(timeout=U, retries=U, backoff=1, mode='permanent'), dict(timeout=U, retries=U, backoff=1, mode='ignored'), dict(timeout=U, retries=1, backoff=0, mode='')]
+    combos = [list(c) for n in (1, 2, 3) for c in itertools.product(itertools.product(range(len(confs)), range(len(scripts))), repeat=n)]
+    combos = rnd.sample(combos, 400 if quick else 6000)
+    modes = {'': None, 'temporary': kopf.ErrorsMode.TEMPORARY, 'permanent': kopf.ErrorsMode.PERMANENT, 'ignored': kopf.ErrorsMode.IGNORED}
+    sim = Sim(wall_budget=0)
+    loop = sim.world.new_loop('client')
+    recs = []
+
+    async def one(combo):
+        reg = kopf.OperatorRegistry()
+        settings = kopf.OperatorSettings()
+        t0 = sim.now
+        times: dict[str, list[int]] = {}
+        hs = []
+        for n, (ci, si) in enumerate(combo):
+            hid = f'h{n}'
+            c = confs[ci]; sc = scripts[si] + [OK] * 3
+            times[hid] = []
+
+            def mk(hid=hid, sc=sc):
+                async def fn(**_):
+                    k = len(times[hid]); times[hid].append(int(sim.now - t0))
+                    r = sc[min(k, len(sc) - 1)]
+                    if r['kind'] == 'temp': raise kopf.TemporaryError('scripted', delay=r['delay'])
+                    if r['kind'] == 'perm': raise kopf.PermanentError('scripted')
+                    if r['kind'] == 'exc': raise ValueError('scripted')
+                    return {'done': hid}
+                fn.__name__ = fn.__qualname__ = hid
+                return fn
+            kopf.on.startup(registry=reg, id=hid, errors=modes[c['mode']], timeout=None if c['timeout'] == U else c['timeout'],
+                            retries=None if c['retries'] == U else c['retries'], backoff=c['backoff'])(mk())
+            hs.append({'conf': dict(c, defbackoff=60), 'script': sc})
+        raised = False; failed_ids: set[str] = set(); results: dict[str, Any] = {}
+        try:
+            results = await activities.run_activity(lifecycle=lifecycles.all_at_once, registry=reg, settings=settings, activity=causes.Activity.STARTUP,
+                                                    indices=indexing.OperatorIndexers().indices, memo=ephemera.Memo())
+        except activities.ActivityError as e:
+            raised = True
+            failed_ids = {str(k) for k, o in e.outcomes.items() if o.exception is not None}
+            results = {k: o.result for k, o in e.outcomes.items() if o.result is not None}
+        for n, h in enumerate(hs):
+            h.update(times=times[f'h{n}'], failed=(f'h{n}' in failed_ids) if raised else False, result=f'h{n}' in {str(k) for k in results})
+        recs.append({'kind': 'actrun', 'handlers': hs, 'raised': raised})
+
+    async def all_():
+        for combo in combos:
+            await one(combo)
+    task = loop.spawn(all_())
+    sim.world.run_until(sim.now + 200000, stop=lambda: task.done())
+    if not task.done() or task.exception():
+        raise RuntimeError(f'activity harness failed: {task.exception() if task.done() else "not finished"}')
+    sim.close()
+    return recs
+
+
 def run(ctx, rep) -> None:
     from vf import records, tlc
     r = tlc.run('MC_Execution', 'MC_Execution.cfg')
@@ -113,11 +188,11 @@ def run(ctx, rep) -> None:
                                   'theorems': ['NeverBeyondAll', 'ModesAll', 'RetryWithinAll']}
     finally:
         shutil.rmtree(scratch, ignore_errors=True)
-    recs = execution_records(ctx.quick, ctx.seed)
+    recs = execution_records(ctx.quick, ctx.seed) + activity_records(ctx.quick, ctx.seed)
     bad = records.judge('Rec_Execution', recs, rep=rep, shard=20000)
     rep.evaluations += len(recs); rep.traces += len(recs)
     for rec in recs:
-        if rec['conf']['timeout'] != -1 or rec['conf']['retries'] != -1 or rec['res']['kind'] != 'ok':
+        if rec['kind'] == 'actrun' or rec['conf']['timeout'] != -1 or rec['conf']['retries'] != -1 or rec['res']['kind'] != 'ok':
             rep.nontrivial(rec)
     for i, label in sorted(bad.items()):
         rep.classified('', f'{label}: {recs[i]}', payload=recs[i])
